@@ -79,6 +79,28 @@ Theorem C02_create_counts : forall f,
 Proof. exact counts_exact. Qed.
 Print Assumptions C02_create_counts.
 
+(* the same with Create as a function on the tree ([tabulate]: every batch's Create sets the batch control's
+   count, File.Create / createFileADV the file control's three; [create_counts_of] = None when createFileADV
+   refuses a file that mixes ADV and other batches): its result is tabulated, so for EVERY tree of the right
+   shape the file written after Create declares what is physically present *)
+Theorem C02_create_tabulates : forall f, adv_only f = true -> tabulatedb (tabulate f) = true.
+Proof. exact counts_tabulated. Qed.
+Print Assumptions C02_create_tabulates.
+
+Theorem C02_create_then_write_counts : forall f g,
+  create_counts_of f = Some g ->
+  shape_ok all_layouts f = true -> adv_no_iat f = true ->
+  all_file (rec_fitsb all_layouts) g = true -> count_boundsb g = true ->
+  let ls := write_file_padded all_layouts g in
+  let fc := last (write_file all_layouts g) [] in
+  fc_batch_count fc = Z.of_nat (batch_header_lines ls)
+  /\ fc_entry_count fc = Z.of_nat (entry_addenda_lines ls)
+  /\ (fc_block_count fc * 10)%Z = Z.of_nat (length ls)
+  /\ length (batch_segments ls) = length (all_batches f)
+  /\ Forall (fun s => bc_entry_count (snd s) = Z.of_nat (entry_addenda_lines (fst s))) (batch_segments ls).
+Proof. exact counts_tabulate. Qed.
+Print Assumptions C02_create_then_write_counts.
+
 (* without the bounds: the columns hold the counts modulo 10^6 / 10^8 *)
 Theorem C02_create_counts_mod : forall f,
   shape_ok all_layouts f = true -> all_file (rec_fitsb all_layouts) f = true ->
@@ -121,6 +143,18 @@ Print Assumptions C02_block_count_residues.
 Theorem C02_counts_generated_files :
   forallb hypsb [ex_std; ex_ret; ex_iat; ex_adv; cx_r0; cx_r0_adv; cx_r0_iat; cx_r1; cx_r9; cx_r9_adv; cx_r9_iat] = true.
 Proof. exact generated_files_hyps. Qed.
+
+(* ... and the model of Create leaves their count fields as the real Create set them *)
+Theorem C02_counts_generated_files_fixed :
+  forallb (fun f => match create_counts_of f with
+                    | Some g => if list_eq_dec Z.eq_dec (fst (count_fields g)) (fst (count_fields f)) then
+                                  let '(a, b, c) := snd (count_fields g) in let '(a', b', c') := snd (count_fields f) in
+                                  (a =? a')%Z && (b =? b')%Z && (c =? c')%Z
+                                else false
+                    | None => false
+                    end)
+          [ex_std; ex_ret; ex_iat; ex_adv; cx_r0; cx_r0_adv; cx_r0_iat; cx_r1; cx_r9; cx_r9_adv; cx_r9_iat] = true.
+Proof. exact generated_files_fixed. Qed.
 
 (* (records, residue, filler lines, declared block count, '5' lines, '6'+'7' lines) *)
 Theorem C02_counts_residue_0 : map residue_row [cx_r0; cx_r0_adv; cx_r0_iat]
